@@ -1,8 +1,29 @@
-import Karp.Driver.Proto
+import Karp.Driver.ScenarioJson
+import Karp.Spec.Admissible
 
 namespace Karp.Driver.C01
-open Lean Karp.Driver
+open Lean Karp.Driver Karp.Driver.ScenarioJson Karp.Scn Karp.Spec.Admissible
 
-def handle : Handler := fun op _ _ => .error s!"unknown op {op}"
+/-- `c01.pass`: judge the end state of a real scheduling pass by the admissibility specification -/
+def opPass (inp impl : Json) : Except String Resp := do
+  let s ← scenario inp
+  match fldOpt impl "err" with
+  | some (.str e) => if e != "" then return { allowed := some true, spec := some true, why := "pass returned an error: " ++ e } else pure ()
+  | _ => pure ()
+  if (fldOpt impl "panic").isSome then
+    return { allowed := some false, spec := some false, why := "the scheduler panicked" }
+  let out ← outcome impl
+  let cands := scenarioCandidates s out
+  match outcomeOK s out cands with
+  | none => pure { allowed := some true, spec := some true }
+  | some why =>
+    -- a leading "[tag] " classifies the violation for known-finding matching
+    let sig := if why.startsWith "[" then ((why.splitOn "]").head!.drop 1).toString else "pass"
+    pure { allowed := some true, spec := some false, why := why, extra := some (jObj [("signature", jStr sig)]) }
+
+def handle : Handler := fun op inp impl =>
+  match op with
+  | "c01.pass" => opPass inp impl
+  | _ => .error s!"unknown op {op}"
 
 end Karp.Driver.C01
